@@ -343,6 +343,25 @@ func extractC01() *lean {
 	l.def("apiVerifyVCStmts", "List String", leanStrList(stmts(apiF, "VerifyVC")), stmts(apiF, "VerifyVC"))
 	l.def("apiVerifyVPStmts", "List String", leanStrList(stmts(apiF, "VerifyVP")), stmts(apiF, "VerifyVP"))
 
+	// StatusList2021.update: how a refreshed list replaces the stored copy (every column, the expanded bitstring included)
+	var onConflict []string
+	if fd := funcDecl(slv, "update"); fd != nil {
+		ast.Inspect(fd, func(n ast.Node) bool {
+			cl, ok := n.(*ast.CompositeLit)
+			if !ok || c01Expr(cl.Type) != "clause.OnConflict" {
+				return true
+			}
+			for _, e := range cl.Elts {
+				if kv, ok := e.(*ast.KeyValueExpr); ok {
+					onConflict = append(onConflict, c01Expr(kv.Key)+":"+c01Expr(kv.Value))
+				}
+			}
+			return true
+		})
+	}
+	l.def("statusListUpdateOnConflict", "List String", leanStrList(onConflict), onConflict)
+	seq("statusListStatusListReturns", slv, "statusList")
+
 	// trust.Config: the return sequences, and whether RemoveTrust drops EVERY entry equal to the issuer
 	// (a loop over the type's list that keeps the entries `!= issuer`), not just one occurrence
 	_, tr := parseFile("vcr/trust/trust.go")
